@@ -19,6 +19,10 @@ type StoreEffect struct {
 	In     *ssa.Function   // function containing the store
 	Field  string          // rendered target (field path tail)
 	Via    string          // call chain from the summarised function
+	// Cell: the store writes a captured variable ITSELF (`buf = append(buf, …)` inside a
+	// function literal or a range-over-func body), not memory the variable points to.
+	// The variable belongs to the activation of the function that declares it.
+	Cell bool
 }
 
 func (e StoreEffect) String() string {
@@ -145,6 +149,16 @@ func (s *Stores) classify(fn *ssa.Function, r ssa.Value) (kind string, param int
 				return "param", len(fn.Params) + i, nil
 			}
 		}
+		// a free variable of a function literal nested in fn (reached through the values the
+		// literal stores into a shared variable): the variable it is bound to
+		if b := s.bindingOf(x); b != nil {
+			if al, ok := b.(*ssa.Alloc); ok && al.Parent() == fn {
+				return "local", 0, nil
+			}
+			if b != r {
+				return s.classify(fn, b)
+			}
+		}
 	case *ssa.Global:
 		return "global", 0, x
 	}
@@ -152,6 +166,42 @@ func (s *Stores) classify(fn *ssa.Function, r ssa.Value) (kind string, param int
 		return "local", 0, nil
 	}
 	return "unknown", 0, nil
+}
+
+// bindingOf: the value a free variable is bound to where its closure is made.
+func (s *Stores) bindingOf(fv *ssa.FreeVar) ssa.Value {
+	f := fv.Parent()
+	mc := s.Pg.Closures[f]
+	if mc == nil {
+		return nil
+	}
+	for i, v := range f.FreeVars {
+		if v == fv && i < len(mc.Bindings) {
+			return mc.Bindings[i]
+		}
+	}
+	return nil
+}
+
+// ownCell: addr denotes (a field / array element of) a captured variable itself, with
+// no load in between.
+func ownCell(addr ssa.Value) (*ssa.FreeVar, bool) {
+	for i := 0; i < 16; i++ {
+		switch x := addr.(type) {
+		case *ssa.FreeVar:
+			return x, true
+		case *ssa.FieldAddr:
+			addr = x.X
+		case *ssa.IndexAddr:
+			if _, isPtr := x.X.Type().Underlying().(*types.Pointer); !isPtr {
+				return nil, false
+			}
+			addr = x.X
+		default:
+			return nil, false
+		}
+	}
+	return nil, false
 }
 
 // deepRoots is roots() refined for loads from local memory: a pointer loaded
@@ -275,13 +325,21 @@ func (s *Stores) Effects(fn *ssa.Function) []StoreEffect {
 	var out []StoreEffect
 	seen := map[string]bool{}
 	add := func(e StoreEffect) {
-		k := fmt.Sprintf("%s/%d/%p/%p", e.Kind, e.Param, e.Global, e.Instr)
+		k := fmt.Sprintf("%s/%d/%p/%p/%v", e.Kind, e.Param, e.Global, e.Instr, e.Cell)
 		if !seen[k] {
 			seen[k] = true
 			out = append(out, e)
 		}
 	}
 	direct := func(addr ssa.Value, in ssa.Instruction) {
+		if fv, ok := ownCell(addr); ok {
+			for i, p := range fn.FreeVars {
+				if p == fv {
+					add(StoreEffect{Kind: "param", Param: len(fn.Params) + i, Instr: in, In: fn, Field: targetName(addr), Cell: true})
+					return
+				}
+			}
+		}
 		for _, r := range s.deepRoots(addr) {
 			kind, p, g := s.classify(fn, r)
 			if kind == "local" {
@@ -318,6 +376,25 @@ func (s *Stores) Effects(fn *ssa.Function) []StoreEffect {
 				e.Via = via
 				add(e)
 				continue
+			}
+			if e.Cell {
+				// the literal assigns a variable it captured: a variable of this activation
+				// (nothing to report), or one this function captured itself (passed on)
+				if al, ok := arg.(*ssa.Alloc); ok && al.Parent() == fn {
+					continue
+				}
+				if fv, ok := arg.(*ssa.FreeVar); ok {
+					passed := false
+					for i, p := range fn.FreeVars {
+						if p == fv {
+							add(StoreEffect{Kind: "param", Param: len(fn.Params) + i, Instr: e.Instr, In: e.In, Field: e.Field, Via: via, Cell: true})
+							passed = true
+						}
+					}
+					if passed {
+						continue
+					}
+				}
 			}
 			var rs []ssa.Value
 			if al, ok := arg.(*ssa.Alloc); ok && e.Param >= len(g.Params) {
